@@ -192,6 +192,7 @@ func c04SingleSub(dir string) *engine.Sub {
 	probes := c04Probes()
 	return &engine.Sub{
 		Name: "single-token-window",
+		Repeat: true,
 		Rule: "IsValidAt of every delegation window (9) and invocation expiry (3), constructed and after seal->unseal, at 22 probe instants; strictly inside => valid, strictly outside => invalid, on a bound don't care; non-trivial = at least one bound present",
 		Bound: func(string) string { return "9+3 windows x {constructed, sealed+unsealed} x 22 probes" },
 		Setup: func(string) error { chainInit(); return nil },
@@ -259,13 +260,31 @@ func c04SingleSub(dir string) *engine.Sub {
 			if nbf != 0 || exp != 0 {
 				ctx.Nontrivial(1)
 			}
-			for pi, at := range probes {
-				if cs.Probe >= 0 && pi != cs.Probe {
-					continue
+			// probes are asked in ascending order, then again in descending order on the same token:
+			// the answer for an instant must not depend on which instants were asked before
+			first := map[int]bool{}
+			order := make([]int, 0, 2*len(probes))
+			for pi := range probes {
+				order = append(order, pi)
+			}
+			for pi := len(probes) - 1; pi >= 0; pi-- {
+				order = append(order, pi)
+			}
+			for step, pi := range order {
+				at := probes[pi]
+				if cs.Probe >= 0 && pi != cs.Probe && step < len(probes) {
+					// replay of a single probe: still walk the whole history, but only judge the requested one
 				}
 				ctx.Eval(1)
 				ctx.Trans(1)
 				got := valid(at)
+				if step >= len(probes) {
+					if got != first[pi] {
+						ctx.Failf(&c04SingleCase{Kind: cs.Kind, Win: cs.Win, Sealed: cs.Sealed, Probe: pi}, "validity-depends-on-earlier-queries/"+cs.Kind, "%s(nbf=%d,exp=%d).IsValidAt(%s) answered %v first and %v after later instants had been asked on the same token", cs.Kind, nbf, exp, at.Format(time.RFC3339Nano), first[pi], got)
+					}
+					continue
+				}
+				first[pi] = got
 				want := c04Ref(nbf, exp, at)
 				ctx.Outcome(fmt.Sprintf("valid=%v", got))
 				rc := &c04SingleCase{Kind: cs.Kind, Win: cs.Win, Sealed: cs.Sealed, Probe: pi}
@@ -407,8 +426,8 @@ func C04() *engine.Check {
 		Level:    "model_checking",
 		Subs: []*engine.Sub{
 			c04SingleSub("sound"),
-			c04ChainSub("chain-time-bounds", "sound", 3, 4),
-			c04RealSub("real-clock", "sound", 3, 5),
+			c04ChainSub("chain-time-bounds", "sound", 3, 5),
+			c04RealSub("real-clock", "sound", 3, 6),
 		},
 		Assumptions: []string{
 			"chain-level instants are injected through invocation.VerifTimeBoundAt (build tag verif), a one-line export of verifyTimeBoundAt; the real-clock sub-check covers the wiring of the time stage into ExecutionAllowed with bounds 10 years away from now",
